@@ -393,26 +393,47 @@ def capOf (s : Str) : Str := match capFirst s with | .ok c => c | .error _ => []
 
 def sortedIds (l : List Str) : List Str := sorted l
 
-/-- one statement of FinalConstruct -/
+/-- `<selector>.FinalConstruct()` of a multi-client port: every registered client port is checked,
+    then registration is locked -/
+def mcFinalStep (p : CppPortItf) : World → World × Option Exc := fun (w : World) =>
+  match w.selector p.target with
+  | none => (w, none)
+  | some sel =>
+    if sel.finalConstructed then (w, some (.runtimeError (L "Already final constructed.")))
+    else
+      match (sortedIds sel.clients).findSome? (fun id =>
+          checkPort w (.client p.target id) p.dzn.itf (L "<external>.arbiter" ++ capOf p.name)) with
+      | some e => (w, some e)
+      | none => (w.setSelector { sel with finalConstructed := true }, none)
+
+/-- the object `<target>.check_bindings()` is called on: the component's own port for STS, the
+    boundary member for MTS -/
+def boundaryObj (p : CppPortItf) : RObj := if p.dzn.sem = .sts then RObj.enc p.name else .bnd p.target
+
+def checkStep (p : CppPortItf) : World → World × Option Exc := fun (w : World) =>
+  (w, checkPort w (boundaryObj p) p.dzn.itf (pathOf w p.name))
+
+def setParentStep (parent : Bool) : World → World × Option Exc := fun (w : World) => ({ w with parentSet := parent }, none)
+
+def encCheckStep : World → World × Option Exc := fun (w : World) =>
+  (w, w.allPorts.findSome? (fun (p, itf) => checkPort w (.enc p.name) itf (pathOf w p.name)))
+
+/-- the step one statement of the generated `FinalConstruct` body performs (the statements are the
+    ones the generator rendered: `ir.finalConstruct`); a statement that is none of the four kinds
+    does nothing -/
+def stmtStep (ir : ShellIR) (parent : Bool) (s : Str) : Option (World → World × Option Exc) :=
+  if s = L "m_encapsulee.dzn_meta.parent = parentComponentMeta;" then some (setParentStep parent)
+  else if s = L "m_encapsulee.check_bindings();" then some encCheckStep
+  else match (ir.provides.filter (·.isMc)).find? (fun p => s = p.target ++ L ".FinalConstruct();") with
+    | some p => some (mcFinalStep p)
+    | none =>
+      match (ir.provides ++ ir.requires).find? (fun p => s = p.target ++ L ".check_bindings();") with
+      | some p => some (checkStep p)
+      | none => none
+
+/-- the steps of FinalConstruct, in the order of the generated statements -/
 def finalStep (w : World) (parent : Bool) : List (World → World × Option Exc) :=
-  let mcSteps := (w.ir.provides.filter (·.isMc)).map fun p => fun (w : World) =>
-    match w.selector p.target with
-    | none => (w, none)
-    | some sel =>
-      if sel.finalConstructed then (w, some (.runtimeError (L "Already final constructed.")))
-      else
-        match (sortedIds sel.clients).findSome? (fun id =>
-            checkPort w (.client p.target id) p.dzn.itf (L "<external>.arbiter" ++ capOf p.name)) with
-        | some e => (w, some e)
-        | none => (w.setSelector { sel with finalConstructed := true }, none)
-  let objOf := fun (p : CppPortItf) => if p.dzn.sem = .sts then RObj.enc p.name else .bnd p.target
-  let chk := fun (p : CppPortItf) => fun (w : World) => (w, checkPort w (objOf p) p.dzn.itf (pathOf w p.name))
-  let ppSteps := (w.ir.provides.filter (!·.isMc)).map chk
-  let rpSteps := w.ir.requires.map chk
-  let setParent := fun (w : World) => ({ w with parentSet := parent }, none)
-  let encStep := fun (w : World) =>
-    (w, w.allPorts.findSome? (fun (p, itf) => checkPort w (.enc p.name) itf (pathOf w p.name)))
-  mcSteps ++ ppSteps ++ rpSteps ++ [setParent, encStep]
+  w.ir.finalConstruct.filterMap (stmtStep w.ir parent)
 
 def runSteps (w : World) : List (World → World × Option Exc) → World × Option Exc
   | [] => (w, none)
